@@ -421,7 +421,7 @@ pub async fn client_query(sh: Arc<Shared>, q: Value) {
     };
     let common = json!({"q":qid,"listener":listener,"src":src.to_string(),"dst":dst.to_string(),"id":id,"tok":tok,
         "name":name.iter().map(|l| l.iter().map(|b| json!(b)).collect::<Vec<_>>()).collect::<Vec<_>>(),
-        "rd":q["rd"].as_bool().unwrap_or(true),"client":client,"adv":q["adv"].as_i64().unwrap_or(-1).max(0),
+        "rd":q["rd"].as_bool().unwrap_or(true),"do":q["do"].as_bool().unwrap_or(false) && q["adv"].as_i64().unwrap_or(-1) >= 0,"cd":q["cd"].as_bool().unwrap_or(false),"client":client,"adv":q["adv"].as_i64().unwrap_or(-1).max(0),
         "upkind":q["upkind"].as_str().unwrap_or("ok"),"drops":q["drops"].as_u64().unwrap_or(0),"cached":q["cached"].as_bool().unwrap_or(false),
         "mixedcase":name.iter().any(|l| l.iter().any(|b| b.is_ascii_uppercase())),
         "qd":[name_digest(&name), q["qtype"].as_u64().unwrap_or(1), q["qclass"].as_u64().unwrap_or(1)],"len":bytes.len()});
@@ -809,6 +809,78 @@ fn hostile(args: &[String]) {
     std::process::exit(0);
 }
 
+/// `rig flood`: C16 at service level.  Sources without any permission send bursts of queries to the
+/// real listener; every REFUSED datagram that comes back is one `req` event (time in whole seconds
+/// since the start of the burst, cost = octets of the datagram), every unanswered query one with
+/// pass = false.  A source that never sent anything sends one query at the end.
+fn flood(args: &[String]) {
+    let mut out = Trace::create(&arg(args, "--out").expect("--out"));
+    let n = arg_u64(args, "--n", 800) as usize;
+    let bursts = arg_u64(args, "--bursts", 2) as usize;
+    setup_namespace();
+    let rt = tokio::runtime::Builder::new_multi_thread().worker_threads(4).enable_all().build().unwrap();
+    rt.block_on(async {
+        let sh = Shared::new();
+        start_upstreams(&sh, 1);
+        let acls = "acls:\n  - {match-subnets: [127.0.20.0/24], apply-access: [dns-recursion]}\n";
+        let routes = vec![json!({"suffixes": [""], "kind": "forward", "up": 1})];
+        let _live = start_dns(acls, &routes).await;
+        let dst = listeners().v4;
+        let long: dnswire::Name = vec![vec![b'a'; 60], vec![b'b'; 60], vec![b'c'; 60], b"example".to_vec()];
+        let short: dnswire::Name = vec![b"q".to_vec(), b"example".to_vec()];
+        for b in 0..bursts {
+            let src: IpAddr = format!("127.0.40.{}", 1 + b).parse().unwrap();
+            let sock = Arc::new(tokio::net::UdpSocket::bind(SocketAddr::new(src, 0)).await.expect("bind"));
+            let t0 = std::time::Instant::now();
+            let rsock = sock.clone();
+            let recv = tokio::spawn(async move {
+                let mut got: Vec<(u64, usize, u16)> = vec![];
+                let mut buf = vec![0u8; 65536];
+                loop {
+                    match tokio::time::timeout(std::time::Duration::from_millis(1500), rsock.recv_from(&mut buf)).await {
+                        Ok(Ok((len, _))) => got.push((t0.elapsed().as_millis() as u64, len, if len >= 4 { (buf[3] & 15) as u16 } else { 99 })),
+                        _ => break,
+                    }
+                }
+                got
+            });
+            for i in 0..n {
+                let q = build_query(i as u16, true, false, false, &long, 1, 1, Some((1232, false, vec![])));
+                let _ = sock.send_to(&q, dst).await;
+                if i % 20 == 19 {
+                    tokio::time::sleep(std::time::Duration::from_millis(if b == 0 { 1 } else { 25 })).await;
+                }
+            }
+            let got = recv.await.unwrap_or_default();
+            out.emit(json!({"ev":"reset","source":src.to_string(),"sent":n}));
+            for (ms, len, rcode) in &got {
+                out.emit(json!({"ev":"req","t":ms / 1000,"ms":ms,"cost":len,"pass":true,"outcome":"ok","deplete":"ok","rcode":rcode,"e2e":true}));
+            }
+            let last = got.last().map(|g| g.0 / 1000).unwrap_or(0);
+            for _ in got.len()..n {
+                out.emit(json!({"ev":"req","t":last,"ms":last * 1000,"cost":250,"pass":false,"outcome":"ok","deplete":"ok","rcode":-1,"e2e":true}));
+            }
+        }
+        // the quiet source
+        let src: IpAddr = "127.0.40.200".parse().unwrap();
+        let sock = tokio::net::UdpSocket::bind(SocketAddr::new(src, 0)).await.expect("bind");
+        let q = build_query(7, true, false, false, &short, 1, 1, None);
+        let _ = sock.send_to(&q, dst).await;
+        let mut buf = vec![0u8; 65536];
+        let r = tokio::time::timeout(std::time::Duration::from_millis(2000), sock.recv_from(&mut buf)).await;
+        out.emit(json!({"ev":"reset","source":src.to_string(),"sent":1}));
+        match r {
+            Ok(Ok((len, _))) => out.emit(json!({"ev":"req","t":0,"ms":0,"cost":len.min(200),"pass":true,"outcome":"ok","deplete":"ok","rcode":(buf[3] & 15),"e2e":true})),
+            _ => out.emit(json!({"ev":"req","t":0,"ms":0,"cost":q.len(),"pass":false,"outcome":"ok","deplete":"ok","rcode":-1,"e2e":true})),
+        }
+        let np = PANICS.lock().unwrap().len();
+        out.emit(json!({"ev":"endflood","panics":np}));
+    });
+    let n = out.finish();
+    eprintln!("rig flood: {} events", n);
+    std::process::exit(0);
+}
+
 /// `rig conf`: C19 at service level for DNS.  Each accepted configuration's routes and ACLs are
 /// swapped into the live DNS service, which then answers queries for names under every kind of
 /// route.  One `dns` event per configuration.
@@ -882,6 +954,7 @@ pub fn main(args: &[String]) {
         Some("http") | Some("full") => crate::righttp::http(&args[1..]),
         Some("hostile") => hostile(&args[1..]),
         Some("conf") => conf(&args[1..]),
+        Some("flood") => flood(&args[1..]),
         _ => {
             eprintln!("usage: rig dns|http ...");
             std::process::exit(2)
